@@ -21,7 +21,7 @@ Proof. exact py_report_exact. Qed.
 Print Assumptions C02_py_report_exact.
 
 Theorem C02_ts_report_exact : forall q cfg f,
-  q_ts_test_marker_anywhere q = false ->
+  q_ts_test_marker_anywhere q = false -> q_ts_single_letter_const q = false ->
   file_good MTs f = true -> report MTs q cfg f = spec_report MTs cfg f.
 Proof. exact ts_report_exact. Qed.
 Print Assumptions C02_ts_report_exact.
@@ -94,8 +94,9 @@ Proof. exact small_int_monotone. Qed.
 Print Assumptions C02_small_int_monotone.
 
 (* 8. The faithful model (every flag as claimed for the current tree) is exact on every admissible file outside the
-      defect classes that are still open: Python UPPER_CASE definitions through a minus / annotation / tuple, and
-      TypeScript paths on which the substring test and the documented test-file rule differ (partial: the full statements
+      defect classes that are still open: Python UPPER_CASE definitions through a minus / annotation / tuple,
+      TypeScript paths on which the substring test and the documented test-file rule differ, and TypeScript
+      declarations of a one-letter upper-case name (partial: the full statements
       are 1; for Rust there is no restriction left, see C02_rs_report_exact). *)
 Theorem C02_actual_partial : forall lg cfg f,
   file_good lg f = true -> file_plain lg magic_actual f = true -> report lg magic_actual cfg f = spec_report lg cfg f.
@@ -120,9 +121,10 @@ Print Assumptions C02_config_precedence.
 Definition ex_py : file :=
   mk_file "/case.py"
     [mk_scope STop None [] [mk_site CUpper "MAX_SIZE" [LInt RDec [[3;0;0]] false ""] 1;
-                            mk_site CAssign "timeout" [LInt RHex [[1;15]] true ""] 2];
+                            mk_site CAssign "timeout" [LInt RHexU [[1;15]] true ""] 2;
+                            mk_site CUpper "_POOL_SIZE" [LInt RDec [[1;2]] false ""] 3; mk_site CAssign "N" [LInt RDec [[1;3]] false ""] 3];
      mk_scope SFunc None [] [mk_site CRange "val" [LInt RDec [[5]] false ""; LInt RDec [[5;0]] false ""] 4;
-                             mk_site CReturn "val" [LFloat [2] [5] (Some (true, [3])) ""] 5;
+                             mk_site CReturn "val" [LFloat [2] [5] (Some ((true, true), [3])) ""] 5;
                              mk_site CStrRepeatL "val" [LInt RDec [[4;0]] false ""] 6;
                              mk_site CAssign "flag" [LBool true] 7]].
 Definition ex_ts : file :=
@@ -138,7 +140,7 @@ Definition ex_cfg : mconfig := mk_cfg (Some [(7, 0)%Z]) None None.
 
 Example C02_nonvacuous :
   file_good MPy ex_py = true /\ file_good MTs ex_ts = true /\ file_good MRs ex_rs = true
-  /\ spec_report MPy ex_cfg ex_py = [(2, RNum (31, 0)%Z); (4, RNum (5, 1)%Z); (5, RNum (25, -4)%Z)]
+  /\ spec_report MPy ex_cfg ex_py = [(2, RNum (31, 0)%Z); (3, RNum (13, 0)%Z); (4, RNum (5, 1)%Z); (5, RNum (25, -4)%Z)]
   /\ spec_report MTs ex_cfg ex_ts = [(2, RNum (254, 0)%Z); (3, RNum (1, 1)%Z); (4, RNum (37, 0)%Z)]
   /\ spec_report MTs (mk_cfg (Some [(37, 0)%Z]) None (Some (None, Some 3%Z))) ex_ts = [(2, RNum (254, 0)%Z); (3, RNum (1, 1)%Z)]
   /\ spec_report MTs (mk_cfg (Some [(37, 0)%Z]) None (Some (Some [], None))) ex_ts
